@@ -127,6 +127,7 @@ type Flow struct {
 	stack      []*types.Func
 	inlineRet  map[*ast.CallExpr]string   // helper call -> label of the call whose error it returns on every path
 	inlineRets map[*ast.CallExpr][]string // per result position
+	inlineNil  map[*ast.CallExpr][]string // helper call -> labels L such that the helper returns a nil error only when L's error was nil
 	Inlined    map[*types.Func]bool
 }
 
@@ -161,6 +162,9 @@ func (m *Flow) Run() *Flow {
 	}
 	if m.inlineRets == nil {
 		m.inlineRets = map[*ast.CallExpr][]string{}
+	}
+	if m.inlineNil == nil {
+		m.inlineNil = map[*ast.CallExpr][]string{}
 	}
 	if m.Inlined == nil {
 		m.Inlined = map[*types.Func]bool{}
@@ -297,6 +301,14 @@ func endsInNoReturn(info *types.Info, b *cfg.Block) bool {
 
 // applyEdge adds edge facts, removing the complementary ones.
 func applyEdge(st Facts, add Facts) {
+	// nil(~implies:A+B) establishes nil(A) and nil(B)
+	for k := range add {
+		if strings.HasPrefix(k, "nil:~implies:") {
+			for _, l := range strings.Split(strings.TrimPrefix(k, "nil:~implies:"), "+") {
+				add["nil:"+l] = true
+			}
+		}
+	}
 	for k := range add {
 		switch {
 		case strings.HasPrefix(k, "nil:"):
@@ -463,6 +475,13 @@ func (m *Flow) assign(lhs, rhs []ast.Expr, st Facts) {
 						if v, ok := m.obj(id).(*types.Var); ok {
 							st[defPrefix(v)+ls[i]] = true
 						}
+					}
+				}
+			} else if ls := m.inlineNil[call]; len(ls) > 0 && m.Label(call, typeutil.Callee(m.info, call)) == "" {
+				// the error result of a nil-preserving helper: its nil-ness implies the nil-ness of the calls it wraps
+				if id, ok := lhs[len(lhs)-1].(*ast.Ident); ok && id.Name != "_" {
+					if v, ok := m.obj(id).(*types.Var); ok {
+						st[defPrefix(v)+"~implies:"+strings.Join(ls, "+")] = true
 					}
 				}
 			} else if l := m.labelOf(call, st); l != "" {
@@ -888,7 +907,7 @@ func (m *Flow) inlineCall(call *ast.CallExpr, fb *FuncBody, st Facts, rec bool) 
 		root = m
 	}
 	sub := &Flow{P: m.P, FB: fb, Label: m.Label, Effect: m.Effect, RecvLabel: m.RecvLabel, AssignEffect: m.AssignEffect, AssignHook: m.AssignHook,
-		OnInline: m.OnInline, depth: m.depth + 1, root: root, stack: append(append([]*types.Func(nil), m.stack...), fb.Obj), inlineRet: root.inlineRet, inlineRets: root.inlineRets, Inlined: root.Inlined, memo: m.memo}
+		OnInline: m.OnInline, depth: m.depth + 1, root: root, stack: append(append([]*types.Func(nil), m.stack...), fb.Obj), inlineRet: root.inlineRet, inlineRets: root.inlineRets, inlineNil: root.inlineNil, Inlined: root.Inlined, memo: m.memo}
 	entry := st.clone()
 	// parameter bindings
 	i := 0
@@ -998,6 +1017,60 @@ func (m *Flow) inlineCall(call *ast.CallExpr, fb *FuncBody, st Facts, rec bool) 
 			root.inlineRets[call] = out
 			if out[len(out)-1] != "" {
 				root.inlineRet[call] = out[len(out)-1]
+			}
+		}
+	}
+	// nil-preservation: labels L whose error is established nil at every return of the helper that may yield a nil error
+	// (a helper that wraps or passes on L's error: `if err := L(); err != nil { return wrap(err) }; return nil`)
+	{
+		var common map[string]bool
+		mayNil := 0
+		for _, r := range sub.Returns {
+			if len(r.Results) == 0 {
+				continue
+			}
+			last := ast.Unparen(r.Results[len(r.Results)-1])
+			if tv, ok := finfo.Types[last]; !ok || !(types.Identical(tv.Type, types.Universe.Lookup("error").Type()) || isNilExpr(finfo, last) || types.Implements(tv.Type, types.Universe.Lookup("error").Type().Underlying().(*types.Interface))) {
+				continue
+			}
+			if u, ok := last.(*ast.UnaryExpr); ok && u.Op == token.AND {
+				continue // &T{...}: never nil
+			}
+			fs := sub.At[r]
+			if id, ok := last.(*ast.Ident); ok && !isNilExpr(finfo, last) {
+				if v, ok := finfo.Uses[id].(*types.Var); ok {
+					if l := sub.defOf(v, fs); l != "" && fs.Has("nonnil:"+l) {
+						continue // returns an error established non-nil
+					}
+				}
+			}
+			mayNil++
+			cur := map[string]bool{}
+			for k := range fs {
+				if strings.HasPrefix(k, "nil:") && !entry[k] {
+					cur[strings.TrimPrefix(k, "nil:")] = true
+				}
+			}
+			if common == nil {
+				common = cur
+			} else {
+				for k := range common {
+					if !cur[k] {
+						delete(common, k)
+					}
+				}
+			}
+		}
+		if mayNil > 0 && len(common) > 0 && root.inlineRet[call] == "" {
+			var ls []string
+			for k := range common {
+				if !strings.HasPrefix(k, "var:") && !strings.HasPrefix(k, "field:") {
+					ls = append(ls, k)
+				}
+			}
+			sort.Strings(ls)
+			if len(ls) > 0 {
+				root.inlineNil[call] = ls
 			}
 		}
 	}
